@@ -168,3 +168,24 @@ Proof.
   cbn [inline_loop_maxdepth]. destruct (maxd <? depth) eqn:E; [apply Z.ltb_lt in E; lia|].
   destruct (look depth); apply IH; lia.
 Qed.
+
+(* ------------------------------------------------------------------ CPUs without an unwinder *)
+Lemma no_unwinder_single_frame {F} c (w : F -> option F) (cur : F) (stack_bytes : nat) :
+  has_unwinder c = false ->
+  walk_any 1 (get_caller_dispatch c w) cur = Ret [cur] /\ (length [cur] <= stack_bytes + 2)%nat.
+Proof.
+  intros H. unfold get_caller_dispatch. rewrite H. cbn. split; [reflexivity|lia].
+Qed.
+
+(* ------------------------------------------------------------------ round-4 sites together *)
+Lemma round4_sites_total :
+  (forall p rs ip tag, wf_regions rs -> 0 <= ip < two64 -> fetch_instruction_bytes p rs ip <> Panic tag) /\
+  (forall p recs look, look_sound recs look -> Z.of_nat (length recs) + 2 < two32 ->
+     (forall tag, inline_loop p (S (length recs)) look 1 [] <> Panic tag) /\
+     inline_loop p (S (length recs)) look 1 [] <> OutOfFuel).
+Proof.
+  split.
+  - intros p rs ip tag Hwf Hip. destruct (fetch_total p rs ip Hwf Hip) as [H|[m [_ [_ [H _]]]]]; rewrite H; discriminate.
+  - intros p recs look Hl Hsz. destruct (inline_levels_bound p recs look Hl Hsz) as [l [H _]].
+    rewrite H. split; [intros tag|]; discriminate.
+Qed.
